@@ -187,6 +187,8 @@ def run(prop, tier="quick", seed=0, jobs=16):
     t0 = time.time()
     reg = load_all_contracts()
     items = items_for(reg, prop, tier)
+    if tier == "thorough":
+        os.environ["PYVC_DEEP_COVERS"] = "1"  # non-vacuity with instantiated hypotheses on every path
     skipped_heavy = sorted(n for n, c in reg.contracts.items() if prop in c.props and c.heavy and tier == "quick")
     results = run_items(items, jobs, limit_s=VERIFY_LIMIT_S if tier == "quick" else 1500)
     ledger = load_ledger()
